@@ -1225,3 +1225,45 @@ package state
 //@ loop 1 invariant[pos] 0 <= itPos(queries) && itPos(queries) <= itLen(queries)
 //@ loop 1 invariant[cursor] (wrapped != nil ==> itPos(queries) >= 1 && wrapped == itElem(queries, itPos(queries)-1)) && (wrapped == nil ==> itPos(queries) == itLen(queries))
 //@ loop 1 invariant[collected] len(ret) == ite(wrapped != nil, itPos(queries) - 1, itPos(queries)) && forall j int :: 0 <= j && j < len(ret) ==> ret[j] == itElem(queries, j).(*queryWrapper).PreparedQuery
+
+//@ file federation_state.go
+//@ func Snapshot.FederationStates
+//@ props C02
+//@ results ret, err
+//@ requires s != nil
+//@ ensures[sound] err == nil ==> forall j int :: 0 <= j && j < len(ret) ==> ret[j] != nil && T_federation_states(ret[j].Datacenter) == ret[j]
+//@ ensures[complete] err == nil ==> forall k string :: T_federation_states(k) != nil ==> exists j int :: 0 <= j && j < len(ret) && ret[j] == T_federation_states(k)
+//@ modifies nothing
+//@ loop 1 invariant[pos] 0 <= itPos(configs) && itPos(configs) <= itLen(configs)
+//@ loop 1 invariant[cursor] (wrapped != nil ==> itPos(configs) >= 1 && wrapped == itElem(configs, itPos(configs)-1)) && (wrapped == nil ==> itPos(configs) == itLen(configs))
+//@ loop 1 invariant[collected] len(ret) == ite(wrapped != nil, itPos(configs) - 1, itPos(configs)) && forall j int :: 0 <= j && j < len(ret) ==> ret[j] == itElem(configs, j).(*structs.FederationState)
+
+//@ func Restore.FederationState
+//@ props C02
+//@ results err
+//@ requires s != nil && g != nil
+//@ ensures[stored-verbatim] err == nil ==> T_federation_states(g.Datacenter) == g && g.ModifyIndex == old(g.ModifyIndex) && g.CreateIndex == old(g.CreateIndex)
+//@ ensures[index-max-merged] err == nil ==> idxVal("federation-states") == ite(old(idxVal("federation-states")) >= g.ModifyIndex, old(idxVal("federation-states")), g.ModifyIndex)
+//@ ensures[other-rows-untouched] forall k string :: strLower(k) != strLower(g.Datacenter) ==> T_federation_states(k) == old(T_federation_states(k))
+//@ modifies T.federation-states, T.index
+
+//@ file system_metadata.go
+//@ func Snapshot.SystemMetadataEntries
+//@ props C02
+//@ results ret, err
+//@ requires s != nil
+//@ ensures[sound] err == nil ==> forall j int :: 0 <= j && j < len(ret) ==> ret[j] != nil && T_system_metadata(ret[j].Key) == ret[j]
+//@ ensures[complete] err == nil ==> forall k string :: T_system_metadata(k) != nil ==> exists j int :: 0 <= j && j < len(ret) && ret[j] == T_system_metadata(k)
+//@ modifies nothing
+//@ loop 1 invariant[pos] 0 <= itPos(entries) && itPos(entries) <= itLen(entries)
+//@ loop 1 invariant[cursor] (wrapped != nil ==> itPos(entries) >= 1 && wrapped == itElem(entries, itPos(entries)-1)) && (wrapped == nil ==> itPos(entries) == itLen(entries))
+//@ loop 1 invariant[collected] len(ret) == ite(wrapped != nil, itPos(entries) - 1, itPos(entries)) && forall j int :: 0 <= j && j < len(ret) ==> ret[j] == itElem(entries, j).(*structs.SystemMetadataEntry)
+
+//@ func Restore.SystemMetadataEntry
+//@ props C02
+//@ results err
+//@ requires s != nil && entry != nil
+//@ ensures[stored-verbatim] err == nil ==> T_system_metadata(entry.Key) == entry && entry.ModifyIndex == old(entry.ModifyIndex) && entry.CreateIndex == old(entry.CreateIndex)
+//@ ensures[index-max-merged] err == nil ==> idxVal("system-metadata") == ite(old(idxVal("system-metadata")) >= entry.ModifyIndex, old(idxVal("system-metadata")), entry.ModifyIndex)
+//@ ensures[other-rows-untouched] forall k string :: strLower(k) != strLower(entry.Key) ==> T_system_metadata(k) == old(T_system_metadata(k))
+//@ modifies T.system-metadata, T.index
